@@ -1,6 +1,8 @@
 import Driver.Codec
 import Driver.Chain
 import Driver.Merkle
+import Driver.Hs
+import Driver.Sync
 /-
   Line-protocol driver of the executable Lean models. `driver <suite>` reads one request per line on stdin
   and answers one line per request on stdout. One sub-driver per model family (Driver/<Suite>.lean).
@@ -10,4 +12,6 @@ def main (args : List String) : IO Unit :=
   | ["codec"] => Drv.Codec.run
   | ["chain"] => Drv.Chain.run
   | ["merkle"] => Drv.Merkle.run
+  | ["hs"] => Drv.Hs.run
+  | ["sync"] => Drv.Sync.run
   | _ => do IO.eprintln "usage: driver <suite>"; IO.Process.exit 2
